@@ -3,8 +3,8 @@ accepts, which classes override find_duplicate_surfaces, whose find_duplicate_su
 what the base class's one does.  -> lean/MontePyVerif/Gen/Dedupe.lean
 
 Everything is read from the imported code (surface_builder is *called* on a sample card for every SurfaceType and
-every count of constants 1..12; the override list is read from the class dictionaries, the provider from the MRO,
-the statements of Surface.find_duplicate_surfaces from its source through ast)."""
+every count of constants 1..12; the override list is read from the class dictionaries, the provider from the MRO;
+what the base class's finder does is observed by calling it on probe surfaces of every class that runs it)."""
 import ast
 import inspect
 import json
@@ -53,13 +53,64 @@ def generate(write):
         (name, next(k.__name__ for k in c.__mro__ if "find_duplicate_surfaces" in k.__dict__))
         for name, c in built.items()
     ]
-    # the statements of the base class's finder (docstring dropped), as ast.unparse prints them
-    fn = ast.parse(textwrap.dedent(inspect.getsource(Surface.__dict__["find_duplicate_surfaces"]))).body[0]
-    stmts = fn.body
-    if stmts and isinstance(stmts[0], ast.Expr) and isinstance(getattr(stmts[0], "value", None), ast.Constant) \
-            and isinstance(stmts[0].value.value, str):
-        stmts = stmts[1:]
-    base_body = "\n".join(ast.unparse(x) for x in stmts)
+    # what the base class's finder DOES (observed since round 7; the first version compared the statements of
+    # Surface.find_duplicate_surfaces, printed by ast.unparse, with the text "return []" and raised a
+    # no-failing-input-found alarm when a behaviour-preserving rewrite named the empty list): every class that runs
+    # the base finder is built for every mnemonic and number of constants it accepts and asked for the duplicates of
+    # its first surface among: itself, an identical card, one whose last constant differs by 1e-9, the card with every
+    # other accepted number of constants (same leading constants), a reflecting twin - under a tiny, a moderate
+    # and a huge tolerance.  Reported: every call that did not return an empty list (or raised).
+    base_runs = {name for name, prov in providers if prov == Surface.__name__}
+    found = []
+    probes = 0
+    notes = []
+
+    def card(num, t, n, last="1.0", mark=""):
+        return Input([f"{mark}{num} {t} " + " ".join(["1.0"] * (n - 1) + [last])], BlockType.SURFACE)
+
+    with warnings.catch_warnings():
+        warnings.simplefilter("ignore")
+        for t, cname, accepted in rows:
+            if cname not in base_runs:
+                continue
+            for n in accepted:
+                try:
+                    group = [surface_builder(card(1, t, n)), surface_builder(card(2, t, n)),
+                             surface_builder(card(3, t, n, "1.000000001"))]
+                    for k, m in enumerate(x for x in accepted if x != n):
+                        group.append(surface_builder(card(10 + k, t, m)))
+                    group.append(surface_builder(card(40, t, n, mark="*")))
+                    group.append(surface_builder(card(41, t, n, mark="*")))
+                except Exception as e:  # noqa: BLE001
+                    notes.append(f"{t}/{n}: probe not built: {type(e).__name__}")
+                    continue
+                for me in (group[0], group[-1]):
+                    for tol in (1e-12, 1e-3, 1e9):
+                        try:
+                            got = me.find_duplicate_surfaces(group, tol)
+                            probes += 1
+                            if not (isinstance(got, list) and len(got) == 0):
+                                try:
+                                    shown = "[" + ", ".join(str(x.number) for x in got) + "]"
+                                except Exception:  # noqa: BLE001
+                                    shown = type(got).__name__
+                                found.append((f"{t} with {n} constants, surface {me.number}, tolerance {tol:g}", shown))
+                        except Exception as e:  # noqa: BLE001
+                            probes += 1
+                            found.append((f"{t} with {n} constants, surface {me.number}, tolerance {tol:g}",
+                                          "raises " + type(e).__name__))
+    total_found = len(found)
+    found = found[:12]
+    # for the reader only (no theorem consumes it): the statements of the base finder as ast.unparse prints them
+    try:
+        fn = ast.parse(textwrap.dedent(inspect.getsource(Surface.__dict__["find_duplicate_surfaces"]))).body[0]
+        stmts = fn.body
+        if stmts and isinstance(stmts[0], ast.Expr) and isinstance(getattr(stmts[0], "value", None), ast.Constant) \
+                and isinstance(stmts[0].value.value, str):
+            stmts = stmts[1:]
+        base_body = "\n".join(ast.unparse(x) for x in stmts)
+    except Exception as e:  # noqa: BLE001
+        base_body = f"(source not available: {type(e).__name__})"
     if len(base_body) > 600:
         base_body = base_body[:600] + " ..."
     q = lambda s: json.dumps(s)  # noqa: E731
@@ -72,7 +123,17 @@ def generate(write):
     body += "def finderClasses : List String := [" + ", ".join(q(c) for c in sorted(finders)) + "]\n"
     body += "\n/-- for every class surface_builder builds: the class (first of its MRO) whose find_duplicate_surfaces it runs -/\n"
     body += "def finderProviders : List (String × String) := [" + ", ".join(f"({q(a)}, {q(b)})" for a, b in providers) + "]\n"
-    body += "\n/-- the statements of surface.py:Surface.find_duplicate_surfaces (the base class's; docstring dropped) -/\n"
-    body += "def baseFinderBody : String := " + q(base_body) + "\n"
+    body += "\n/-- number of calls of the base class's finder (surface.py:Surface.find_duplicate_surfaces, run by the classes\n"
+    body += "    of `finderProviders` with provider Surface) made on probe surfaces: every mnemonic and number of constants,\n"
+    body += "    among identical / nearly equal / longer and shorter / reflecting cards, three tolerances -/\n"
+    body += f"def baseFinderProbes : Nat := {probes}\n"
+    body += "/-- the probe calls that did not return the empty list: (probe, the numbers returned or the exception); at most 12 shown -/\n"
+    body += "def baseFinderFound : List (String × String) := [" + ", ".join(f"({q(a)}, {q(b)})" for a, b in found) + "]\n"
+    body += f"def baseFinderFoundCount : Nat := {total_found}\n"
+    for n in notes[:20]:
+        body += "-- not observed: " + q(n) + "\n"
+    if total_found or not probes:
+        # for the reader of a failed obligation only (a table that depends on the spelling would be rebuilt for nothing)
+        body += "-- the statements of the base finder: " + q(base_body) + "\n"
     body += "\nend MontePyVerif.Gen.Dedupe\n"
     write("Dedupe.lean", body)
